@@ -72,6 +72,8 @@ func init() {
 			"a reopen in the same process stands for a restart: the package-level flush bookkeeping (core.lastWrite) is reset to its start-up value before every open (hook VerifC04ResetLastWrite)",
 			"the expected state content of a block is fixed by its state root: the independent walk verifies every node and code blob against the hash it is stored under",
 			"generated trees contain no two blocks of the same height with equal total difficulty, so the random tie break of the fork choice is never reached and the crash-free head is unique",
+			"after a Stop call of a pruning node has returned, the state of the head block is on disk (the property's mechanism 'Stop flushes the recent tries'); demanded only at that quiescent point, never inside Stop",
+			"a workload that can never continue is recognised from the goroutine stacks (workload goroutine parked in a lock acquisition inside node code, no other goroutine inside node code, non-blocking lock probe fails), never from elapsed time",
 			"crash points inside SetHead are outside the quantifier of the property (import, reorganisation, shutdown); they are exercised and reported under op=sethead so that they can be told apart",
 		},
 		Exhaustive: func(tier string, counters map[string]int) bool {
